@@ -165,6 +165,22 @@ func main() {
 			obls = append(obls, r.Obls...)
 		}
 	}
+	// lemmas over the specification vocabulary (compositions of contracts)
+	for _, lm := range SS.Lemmas {
+		ok := *prop == "" || *prop == "all"
+		for _, p := range lm.Serves {
+			if p == *prop {
+				ok = true
+			}
+		}
+		if !ok || (*only != "" && !strings.Contains("lemma:"+lm.Name, *only)) {
+			continue
+		}
+		r := verifyLemma(P, SS, G, lm)
+		results = append(results, r)
+		r.Obls = filterProps(r.Obls, *prop)
+		obls = append(obls, r.Obls...)
+	}
 	// function-type contracts: every function of the module that is converted to
 	// the named function type must satisfy the contract
 	for _, tn := range sortedKeys(SS.FuncTypes) {
